@@ -463,6 +463,15 @@ type Clause struct {
 	Line int
 }
 
+// GhostSet is an assignment to a contract-only ghost field (an auxiliary variable: no program value depends on it),
+// executed in order at every return of the function before its hints and postconditions are checked.
+type GhostSet struct {
+	Text string
+	LHS  SCall // gf(name, obj) or gfa(name, obj, index)
+	RHS  SExpr
+	Line int
+}
+
 type LoopContract struct {
 	Ordinal     int
 	Invariants  []*Clause
@@ -494,6 +503,7 @@ type Contract struct {
 	ChanInvs   []*Clause // chaninv <elem type> : P(elem)   assumed at every receive, proved at every send of a channel of that element type
 	Hints      []*Clause // proved at every return with the locals in scope, then assumed for the postconditions (not visible to callers)
 	Covers     []*Clause
+	GhostSets  []*GhostSet // ghostset gf(name, obj) := e / gfa(name, obj, k) := e : ghost assignments run at every return
 	Line       int
 	File       string
 	Notes      []string
@@ -588,7 +598,7 @@ var clauseKeywords = map[string]bool{
 	"func": true, "pure": true, "opaque": true, "ground": true, "sealed": true, "props": true, "requires": true, "ensures": true, "modifies": true,
 	"loop": true, "invariant": true, "decreases": true, "assert_at": true, "table": true, "axiom": true,
 	"lemma": true, "inline": true, "hint": true, "chaninv": true, "arith": true, "trusted": true, "cover": true, "note": true,
-	"maypanic": true, "noauto": true, "cases": true, "float": true, "ghostzero": true, "params": true, "allowexit": true, "extern": true, "makelimit": true, "callback": true, "preserves": true, "iterates": true, "iterated_by": true, "iterinv": true, "iterstop": true,
+	"maypanic": true, "noauto": true, "cases": true, "float": true, "ghostzero": true, "params": true, "allowexit": true, "extern": true, "makelimit": true, "callback": true, "preserves": true, "iterates": true, "iterated_by": true, "iterinv": true, "iterstop": true, "ghostset": true,
 }
 
 // parseTags parses an optional "[C01,C02]" or "[name]" prefix
@@ -882,6 +892,21 @@ func ParseSpecFile(path, pkg, content string) (*SpecFile, error) {
 			if cur != nil {
 				cur.Hints = append(cur.Hints, c)
 			}
+		case "ghostset":
+			j := strings.Index(rest, ":=")
+			if j < 0 || cur == nil {
+				return nil, fmt.Errorf("%s:%d: ghostset needs 'gf(name, obj) := <expr>' or 'gfa(name, obj, index) := <expr>' inside a contract", path, l.line)
+			}
+			lhs, lerr := ParseSpec(rest[:j])
+			rhs, rerr := ParseSpec(rest[j+2:])
+			lc, isCall := lhs.(SCall)
+			if lerr != nil || rerr != nil || !isCall || !((lc.Fn == "gf" && len(lc.Args) == 2) || (lc.Fn == "gfa" && len(lc.Args) == 3)) {
+				return nil, fmt.Errorf("%s:%d: ghostset: malformed assignment", path, l.line)
+			}
+			if _, ok := lc.Args[0].(SIdent); !ok {
+				return nil, fmt.Errorf("%s:%d: ghostset: the first argument of gf/gfa is the name of the ghost field", path, l.line)
+			}
+			cur.GhostSets = append(cur.GhostSets, &GhostSet{Text: strings.TrimSpace(rest), LHS: lc, RHS: rhs, Line: l.line})
 		case "cover":
 			c, err := mkClause(kw, rest, l.line)
 			if err != nil {
